@@ -794,6 +794,14 @@ func (ega *EnhancedGroupAggregator) GetResults() ([]map[string]any, error) {
 	return ega.postProcessor.ProcessResults(results)
 }
 
+// PostProcessResults evaluates the post-aggregation expressions (items such as
+// sum(v)/count(*)) over result rows that already hold the aggregate placeholders
+// and removes the placeholders, as GetResults does for its own rows. Used for
+// windows that keep their own running aggregates (global window).
+func (ega *EnhancedGroupAggregator) PostProcessResults(results []map[string]any) ([]map[string]any, error) {
+	return ega.postProcessor.ProcessResults(results)
+}
+
 // createParameterizedAggregator creates aggregator with parameters for complex functions
 // 使用新的接口方法替代硬编码实现
 func (ega *EnhancedGroupAggregator) createParameterizedAggregator(field AggregationFieldInfo) AggregatorFunction {
